@@ -46,7 +46,12 @@ class WindowManager:
         :rtype: ``None``
         """
         self.current_window_size -= size
-        if self.current_window_size < 0:
+
+        # The window may legitimately be negative already, after we shrank
+        # SETTINGS_INITIAL_WINDOW_SIZE (RFC 7540 Section 6.9.2). A frame that
+        # carries no flow-controlled bytes, such as the empty DATA frame that
+        # ends a stream, cannot overrun it (RFC 7540 Section 6.9.1).
+        if size and self.current_window_size < 0:
             raise FlowControlError("Flow control window shrunk below 0")
 
     def window_opened(self, size):
